@@ -928,7 +928,7 @@ def run_check(tier, seed):
         treq = ['TRACE %d %s' % (ch, c['data'].hex() or '-') for c in tsample for ch in (36, 52, 4096)]
         treq += ['TRACE 100000 %s' % cases[i]['data'].hex() for i in small if cases[i]['kind'] == 'bighdr'][:4]
         tl = lean_batch(drv, treq)
-        unsafe = [l for l in tl if len(l.split()) != 5 or l.split()[1] != '0' or l.split()[2] != 'false']
+        unsafe = [l for l in tl if l != 'BIG' and (len(l.split()) != 5 or l.split()[1] != '0' or l.split()[2] != 'false')]
         if unsafe:
             tie.append(dict(what='instrumented window run reports an unsafe access or a stuck copy loop (contradicts theorem window_safe)', lines=unsafe[:5]))
         dist['trace-evaluations'] = len(tl)
